@@ -21,6 +21,32 @@ unique).  Where the C would call `iv_fatal` (die on a kicked thread / a thread s
 unregistering an unregistered timer, registering a registered timer) or take from an empty list, the model
 sets `fatal`.  Thread creation is assumed to succeed.  Work items are numbered in submission order (an
 `iv_work_item` structure may be reused once its completion has been called; each submission is a new number).
+
+Submitters.  `iv_work_submit_pool` distinguishes only "called in the owner thread" from "called in any other thread"
+(`called_from_owner_thread`).  `submit` is the first, `submitc k` and `submitf` are the second: `submitc k` is the
+call made by worker k of this pool from inside a work function, `submitf` ("foreign") is the call made by any other
+thread that is not the owner: in practice a worker of ANOTHER pool running one of that pool's work functions, or one
+of this pool's workers inside a `thread_start` hook.  Both have the same effect (`enqueue s false`): enqueue under the
+pool lock, kick the first idle worker and mark it `kicked`, else below `max_threads` post `thread_needed` to the owner;
+a non-owner never starts a thread itself.
+
+Environment contract (valid use, the whole of it): the application does not submit to a pool after it called
+`iv_work_pool_put` on it (guard `handle = true` of the three submit actions: `put` clears the user's handle), and does
+not call `put` while a submission to that pool is in progress (the caller reads `this->priv` before it takes the pool
+lock: a submission is ONE action here, never interleaved with `put`).  Nothing else is assumed about a foreign
+submitter: any thread, any moment, any number of times, whatever the pool's workers are doing.
+
+History (defect D10, found when the foreign submitter was added).  The pinned code tests
+`!pool->started_threads && iv_list_empty(&pool->work_done)` in `iv_work_event` before it frees a shutting-down pool:
+`work_items` is not looked at.  A pool without any worker can have an item queued and only `thread_needed` owed (a
+foreign continuation).  The owner's events run in posting order, so a fresh pool is safe (`thread_needed` was posted
+before put's `ev`), but when `ev` is already pending (or the owner is inside `iv_work_event`) at the moment the last
+worker idles out, the order is ev first: witness on the model of the pinned code (oFinish without the `queue = []`
+test), for every max ≥ 1:
+  submit, wStart 0, wSelfKick 0, wKick 0, wEnter 0, wAfter 0, wTimeout 0, wTimeoutRun 0, submitf, put, oEv, oSteal,
+  oComplete, oFinish   ⟶   freed = true with queue = [1]: item 1 never runs, `thread_needed` is unregistered while owed.
+Reproduced on the real code: corpus/C13/d10-freed-with-queued-continuation.scn.  The model below is the code after the
+one-condition repair (`&& iv_list_empty(&pool->work_items)` in that test); with it no event ordering has to be assumed.
 -/
 namespace Ivy.Work
 
@@ -119,6 +145,7 @@ def St.init (max : Nat) : St := { max }
 inductive Act where
   | submit                 -- owner: iv_work_pool_submit_work / _continuation called in the owner thread
   | submitc (k : Nat)      -- iv_work_pool_submit_continuation from the work function running in worker k
+  | submitf                -- iv_work_pool_submit_continuation from any other non-owner thread (a worker of another pool, ...)
   | put                    -- owner: iv_work_pool_put
   | wStart (k : Nat)       -- iv_work_thread up to and including thread_start
   | wSelfKick (k : Nat)    -- iv_work_thread: iv_event_post(&thr->kick)
@@ -206,6 +233,8 @@ def step (s : St) : Act → Option St
     if s.handle = true ∧ s.owner.user = true then some (enqueue s true) else none
   | .submitc k =>
     if s.handle = true ∧ k < s.nw ∧ (s.w k).pc.isRunning = true then some (enqueue s false) else none
+  | .submitf =>
+    if s.handle = true then some (enqueue s false) else none
   | .put =>
     if s.handle = true ∧ s.owner.user = true then
       let s := { s with handle := false, shut := true }
@@ -262,7 +291,7 @@ def step (s : St) : Act → Option St
     | _ => none
   | .oFinish =>
     if s.owner = .compl [] then
-      if s.shut = true ∧ s.started = 0 ∧ s.done = [] then
+      if s.shut = true ∧ s.started = 0 ∧ s.done = [] ∧ s.queue = [] then
         some { s with freed := true, evOwed := false, tnOwed := false, owner := .idle }
       else some { s with owner := .idle }
     else none
@@ -278,9 +307,20 @@ def step (s : St) : Act → Option St
       some (setW s k (fun w => { w with deadOwed := false, deadReg := false, pc := .joined }))
     else none
 
+/-- the LTS of the pinned code BEFORE the D10 repair: `iv_work_event` frees a shutting-down pool without looking at
+`work_items`.  Only used to keep the witness of the defect checkable (Props/C13.lean); no theorem is about it. -/
+def stepD10 (s : St) : Act → Option St
+  | .oFinish =>
+    if s.owner = .compl [] then
+      if s.shut = true ∧ s.started = 0 ∧ s.done = [] then
+        some { s with freed := true, evOwed := false, tnOwed := false, owner := .idle }
+      else some { s with owner := .idle }
+    else none
+  | a => step s a
+
 /-- the actions of the user program (and of the clock): everything else is internal to the library -/
 def Act.external : Act → Bool
-  | .submit | .submitc _ | .put | .wTimeout _ => true
+  | .submit | .submitc _ | .submitf | .put | .wTimeout _ => true
   | _ => false
 
 /-! ## NULL pool: `iv_work_submit_local` / `iv_work_handle_local` (one thread, no lock) -/
